@@ -105,7 +105,7 @@ def h_jsep(ctx, depth, media, pre="none"):
             if "answer" in made[who]:
                 calls.append("setLocal-answer")
             if "offer" in made[other]:
-                calls += ["setRemote-offer", "setRemote-offer-defective"]
+                calls += ["setRemote-offer", "setRemote-offer-defective", "setRemote-offer-begin"]
             if "answer" in made[other]:
                 calls += ["setRemote-answer", "setRemote-answer-defective"]
             call = ctx.choice("call%d" % step, calls)
@@ -113,6 +113,11 @@ def h_jsep(ctx, depth, media, pre="none"):
             pre = _snapshot(p)
             pending[who] = [t for t in pending[who] if not t.done()]
             relaxed = bool(pending[who])  # an earlier call on this peer is still in progress
+            if any(getattr(t, "_is_remote", False) for t in pending[who]) and call not in ("close", "close-begin"):
+                # aiortc has no operations chain: what a second set*/create* call does while a
+                # setRemoteDescription is still in progress is not covered by the property; only
+                # close() racing with it is ("closed is absorbing")
+                raise sx.PathAbort()
             if not relaxed:
                 ctx.check(pre[0] == state, "signalingState-follows-the-jsep-table")
             begun = None
@@ -191,7 +196,21 @@ def h_jsep(ctx, depth, media, pre="none"):
                         text = mutated
                         if legal_state and _expected_defect_effect(defect, typ, has_audio):
                             want_exc = ValueError
-                    run(p.setRemoteDescription(RTCSessionDescription(sdp=text, type=typ)))
+                    if call.endswith("-begin") and want_exc is None:
+                        # started, not awaited (see setLocal-begin)
+                        begun = loop.create_task(p.setRemoteDescription(RTCSessionDescription(sdp=text, type=typ)))
+                        begun._is_remote = True
+                        run(asyncio.sleep(0))
+                        if begun.done():
+                            begun.result()
+                            begun = None
+                        else:
+                            pending[who].append(begun)
+                            model[who] = nxt
+                            log.append((who, call, None, "pending"))
+                            continue
+                    else:
+                        run(p.setRemoteDescription(RTCSessionDescription(sdp=text, type=typ)))
                     rd = p.remoteDescription
                     ctx.check(rd is not None and rd.type == typ and rd.sdp.count("\nm=") == text.count("\nm="), "remoteDescription-is-the-description-just-set", "%s in %s -> %r" % (call, state, None if rd is None else rd.type))
                 elif call == "close-begin":
